@@ -1,5 +1,43 @@
 //! Async twins of the reading / writing / query protocols of fmt::kinds and fmt::query (C16).
 //! Each function must produce exactly the observation items of its sync counterpart.
+//!
+//! Coverage (noodles tree as pinned; "-" = the crate has no async API for it, so the `has_*`
+//! predicates answer false and nothing is guessed):
+//!
+//! | kind     | async reader variants                         | async writer | async query (index -> data) |
+//! |----------|-----------------------------------------------|--------------|------------------------------|
+//! | bgzf     | read_to_end, read-777, fill_buf               | yes          | gzi -> bgzf (seek_by_uncompressed_position) |
+//! | sam      | records, record_bufs                          | yes          |                              |
+//! | sam.gz   | records, record_bufs (sam over async bgzf)    | yes (sam over async bgzf) |                 |
+//! | bam      | records, record_bufs, read_record+positions   | yes          | bai -> bam, csi -> bam       |
+//! | bam-raw  | records, record_bufs (Reader::from(plain))    | yes (Writer::from(plain)) |                 |
+//! | vcf      | records, record_bufs                          | yes          |                              |
+//! | vcf.gz   | records, record_bufs (vcf over async bgzf)    | yes (vcf over async bgzf) | tabix -> vcf.gz |
+//! | bcf      | records only (no async record_bufs)           | yes          | csi -> bcf                   |
+//! | bcf-raw  | records only                                  | yes          |                              |
+//! | fasta    | read_definition+read_sequence only (no async records(), no async Indexer) | yes | - (no async query) |
+//! | fastq    | records only (no async Indexer)               | yes          |                              |
+//! | gff      | lines, record_bufs                            | - (no async writer) |                       |
+//! | gtf, bed | - (no async module)                           | -            |                              |
+//! | bai, csi, tabix, gzi, fai | read_index                   | yes          |                              |
+//! | cram     | records, read_container+slices                | yes, if `async_writer_supports` | crai -> cram |
+//! | crai     | read_index                                    | yes          |                              |
+//!
+//! Finishing calls (careful user): the type's own `shutdown()` where it has one (bgzf, bam, vcf,
+//! bai, csi, tabix, fai, crai, cram: `shutdown(&header)`), otherwise `get_mut().shutdown()` on the
+//! inner `AsyncWrite` (sam, bcf, fasta, fastq, gzi: these async writers have no finishing call; for
+//! sam.gz / bcf the inner writer is the async BGZF writer, whose shutdown writes the EOF block).
+//!
+//! Worker counts: set from `workers` wherever the caller builds the async BGZF reader/writer
+//! (bgzf, bam, bcf, sam.gz, vcf.gz, queries). The csi / tabix async readers and writers build their
+//! BGZF layer internally (`Reader::new` / `Writer::new`) and use `available_parallelism()` workers;
+//! there is no setter.
+//!
+//! CRAM writer options: the async builder offers `set_reference_sequence_repository`,
+//! `preserve_read_names`, `encode_alignment_start_positions_as_deltas` and
+//! `set_block_content_encoder_map` (all four of `fmt::cram::write_cram`, so every encoder and the
+//! version selector are available); it has no counterpart of the records-per-slice hook H3, which
+//! exists on the sync builder only.
 
 use std::io;
 use std::num::NonZero;
@@ -7,31 +45,121 @@ use std::sync::Arc;
 
 use futures::TryStreamExt;
 use noodles_bam as bam;
+use noodles_bcf as bcf;
 use noodles_bgzf as bgzf;
+use noodles_cram as cram;
+use noodles_csi as csi;
+use noodles_fasta as fasta;
+use noodles_fastq as fastq;
+use noodles_gff as gff;
+use noodles_sam as sam;
+use noodles_tabix as tabix;
+use noodles_vcf as vcf;
+use tokio::io::{AsyncBufReadExt, AsyncReadExt, AsyncWriteExt, BufReader};
 
 use super::{
-    End, Obs, align,
+    End, Obs, ObsBuf, align,
     kinds::{Kind, Model},
+    variant,
 };
-use crate::kernel::PanicInfo;
 use crate::seams::aio::{SimAsyncRead, SimAsyncWrite};
 
 /// kinds that have at least one async reader or writer twin
-pub const ASYNC_KINDS: &[Kind] = &[Kind::Bam];
+pub const ASYNC_KINDS: &[Kind] = &[
+    Kind::Bgzf,
+    Kind::Sam,
+    Kind::SamGz,
+    Kind::Bam,
+    Kind::BamRaw,
+    Kind::Vcf,
+    Kind::VcfGz,
+    Kind::Bcf,
+    Kind::BcfRaw,
+    Kind::Fasta,
+    Kind::Fastq,
+    Kind::Gff,
+    Kind::Bai,
+    Kind::Csi,
+    Kind::Tabix,
+    Kind::Gzi,
+    Kind::Fai,
+    Kind::Cram,
+    Kind::Crai,
+];
 
 /// index kinds whose companion data file has an async query twin
-pub const QUERY_INDEX_KINDS: &[Kind] = &[Kind::Bai];
+pub const QUERY_INDEX_KINDS: &[Kind] = &[Kind::Bai, Kind::Csi, Kind::Tabix, Kind::Gzi, Kind::Crai];
 
-pub fn has_async_reader(kind: Kind, _variant: u8) -> bool {
-    matches!(kind, Kind::Bam)
+pub fn has_async_reader(kind: Kind, variant: u8) -> bool {
+    match kind {
+        // read_to_end / read-777 / fill_buf
+        Kind::Bgzf => true,
+        // records / record_bufs (/ read_record + positions)
+        Kind::Sam | Kind::SamGz | Kind::Bam | Kind::BamRaw | Kind::Vcf | Kind::VcfGz => true,
+        // bcf::async::io::Reader has records() and read_record() but no record_bufs()
+        Kind::Bcf | Kind::BcfRaw => variant % 2 == 0,
+        // fasta::async::io::Reader has read_definition / read_sequence only; there is no async
+        // records() and no async Indexer
+        Kind::Fasta => variant % 3 == 1,
+        // fastq::async::io::Reader has records(); there is no async Indexer
+        Kind::Fastq => variant % 2 == 0,
+        // lines / record_bufs
+        Kind::Gff => true,
+        // no async module in noodles-gtf / noodles-bed
+        Kind::Gtf | Kind::Bed => false,
+        Kind::Bai | Kind::Csi | Kind::Tabix | Kind::Gzi | Kind::Fai | Kind::Crai => true,
+        // records / read_container + slices
+        Kind::Cram => true,
+    }
 }
 
-pub fn has_async_writer(_kind: Kind) -> bool {
-    false
+pub fn has_async_writer(kind: Kind) -> bool {
+    match kind {
+        Kind::Bgzf
+        | Kind::Sam
+        | Kind::SamGz
+        | Kind::Bam
+        | Kind::BamRaw
+        | Kind::Vcf
+        | Kind::VcfGz
+        | Kind::Bcf
+        | Kind::BcfRaw
+        | Kind::Fasta
+        | Kind::Fastq
+        | Kind::Bai
+        | Kind::Csi
+        | Kind::Tabix
+        | Kind::Gzi
+        | Kind::Fai
+        | Kind::Cram
+        | Kind::Crai => true,
+        // noodles-gff has an async reader only; gtf / bed have no async module
+        Kind::Gff | Kind::Gtf | Kind::Bed => false,
+    }
 }
 
-pub fn has_async_query(_index_kind: Kind, _data_kind: Kind) -> bool {
-    false
+/// Can the async writer twin be configured like the sync writer was for this model? False for CRAM
+/// models written with the records-per-slice hook (H3: `cram::io::writer::Builder` only; the async
+/// builder always uses the preset's 10240 records per slice). Every encoder of `CramOpts` is
+/// selectable (the async builder takes the same `BlockContentEncoderMap`).
+pub fn async_writer_supports(model: &Model) -> bool {
+    match model {
+        Model::Cram { opts, .. } => opts.records_per_slice.is_none(),
+        _ => true,
+    }
+}
+
+pub fn has_async_query(index_kind: Kind, data_kind: Kind) -> bool {
+    matches!(
+        (index_kind, data_kind),
+        (Kind::Bai, Kind::Bam)
+            | (Kind::Csi, Kind::Bam)
+            | (Kind::Csi, Kind::Bcf)
+            | (Kind::Tabix, Kind::VcfGz)
+            | (Kind::Gzi, Kind::Bgzf)
+            | (Kind::Crai, Kind::Cram)
+    )
+    // (Fai, Fasta): fasta::async::io::Reader has seek() but no query()
 }
 
 /// formats whose bytes pass through a compressor other than BGZF (byte identity not demanded)
@@ -39,20 +167,23 @@ pub fn compressed_kind(kind: Kind) -> bool {
     matches!(kind, Kind::Cram | Kind::Crai)
 }
 
+fn workers_nz(workers: usize) -> NonZero<usize> {
+    NonZero::new(workers.max(1)).unwrap()
+}
+
 fn bgzf_reader(src: SimAsyncRead, workers: usize) -> bgzf::r#async::io::Reader<SimAsyncRead> {
     bgzf::r#async::io::reader::Builder::default()
-        .set_worker_count(NonZero::new(workers.max(1)).unwrap())
+        .set_worker_count(workers_nz(workers))
         .build_from_reader(src)
 }
 
-/// Async counterpart of `fmt::observe`: panics are contained by the caller (aexec::run).
-async fn observe_async<F>(f: impl FnOnce(Arc<std::sync::Mutex<Vec<String>>>, Arc<std::sync::Mutex<Vec<u8>>>) -> F) -> Obs
-where
-    F: Future<Output = io::Result<()>>,
-{
-    let items = Arc::new(std::sync::Mutex::new(Vec::new()));
-    let bytes = Arc::new(std::sync::Mutex::new(Vec::new()));
-    let r = f(items.clone(), bytes.clone()).await;
+fn bgzf_writer(sink: SimAsyncWrite, workers: usize) -> bgzf::r#async::io::Writer<SimAsyncWrite> {
+    bgzf::r#async::io::writer::Builder::default()
+        .set_worker_count(workers_nz(workers))
+        .build_from_writer(sink)
+}
+
+fn finish_obs(buf: ObsBuf, r: io::Result<()>) -> Obs {
     let end = match r {
         Ok(()) => End::Eof,
         Err(e) => End::Err {
@@ -60,73 +191,658 @@ where
             msg: e.to_string(),
         },
     };
-    let items = std::mem::take(&mut *items.lock().unwrap());
-    let bytes = std::mem::take(&mut *bytes.lock().unwrap());
-    Obs { items, bytes, end }
+    Obs {
+        items: buf.items,
+        bytes: buf.bytes,
+        end,
+    }
 }
 
-#[allow(dead_code)]
-fn _unused(_: PanicInfo) {}
+fn lossy(b: &[u8]) -> String {
+    String::from_utf8_lossy(b).into_owned()
+}
+
+fn lazy(variant: u8) -> bool {
+    variant % 2 == 0
+}
+
+// ------------------------------------------------------------------------------------- readers
 
 /// Reads a source of the given kind to the end with the async reader twin of reading-protocol
-/// variant `variant`; same items as `kinds::read(kind, variant, ..)`.
+/// variant `variant`; same items as `kinds::read(kind, variant, ..)`. Panics are contained by the
+/// caller (aexec::run).
 pub async fn aread(kind: Kind, variant: u8, src: SimAsyncRead, workers: usize) -> Obs {
-    observe_async(|items, _bytes| async move {
-        let push = |s: String| items.lock().unwrap().push(s);
-        match kind {
-            Kind::Bam => {
+    let mut buf = ObsBuf::default();
+    let r = aread_inner(kind, variant, src, workers, &mut buf).await;
+    finish_obs(buf, r)
+}
+
+async fn aread_inner(kind: Kind, variant: u8, src: SimAsyncRead, workers: usize, o: &mut ObsBuf) -> io::Result<()> {
+    if !has_async_reader(kind, variant) {
+        return Err(io::Error::other("harness: no async reader twin for this kind/variant"));
+    }
+    let ObsBuf { items, bytes: out } = o;
+    match kind {
+        Kind::Bgzf => {
+            let mut r = bgzf_reader(src, workers);
+            match variant % 3 {
+                0 => {
+                    r.read_to_end(out).await?;
+                }
+                1 => {
+                    let mut buf = [0u8; 777];
+                    loop {
+                        let n = match r.read(&mut buf).await {
+                            Ok(n) => n,
+                            Err(e) if e.kind() == io::ErrorKind::Interrupted => continue,
+                            Err(e) => return Err(e),
+                        };
+                        if n == 0 {
+                            break;
+                        }
+                        out.extend_from_slice(&buf[..n]);
+                    }
+                }
+                _ => loop {
+                    let w = match r.fill_buf().await {
+                        Ok(w) => w,
+                        Err(e) if e.kind() == io::ErrorKind::Interrupted => continue,
+                        Err(e) => return Err(e),
+                    };
+                    if w.is_empty() {
+                        break;
+                    }
+                    let n = w.len();
+                    out.extend_from_slice(w);
+                    r.consume(n);
+                },
+            }
+            items.push(format!("P|{}", u64::from(r.virtual_position())));
+            Ok(())
+        }
+        Kind::Sam => aread_sam(sam::r#async::io::Reader::new(BufReader::new(src)), lazy(variant), items).await,
+        Kind::SamGz => aread_sam(sam::r#async::io::Reader::new(bgzf_reader(src, workers)), lazy(variant), items).await,
+        Kind::Bam => match variant % 3 {
+            2 => {
                 let mut r = bam::r#async::io::Reader::from(bgzf_reader(src, workers));
                 let header = r.read_header().await?;
-                push(format!("H|{}", align::render_header(&header)?));
-                match variant % 3 {
-                    0 => {
-                        let mut s = r.records();
-                        while let Some(rec) = s.try_next().await? {
-                            push(format!("R|{}", align::render_record(&header, &rec)?));
-                        }
+                items.push(format!("H|{}", align::render_header(&header)?));
+                items.push(format!("P|{}", u64::from(r.get_ref().virtual_position())));
+                let mut rec = bam::Record::default();
+                loop {
+                    let n = r.read_record(&mut rec).await?;
+                    if n == 0 {
+                        break;
                     }
-                    1 => {
-                        let mut s = r.record_bufs(&header);
-                        while let Some(rec) = s.try_next().await? {
-                            push(format!("R|{}", align::render_record(&header, &rec)?));
-                        }
-                    }
-                    _ => {
-                        push(format!("P|{}", u64::from(r.get_ref().virtual_position())));
-                        let mut rec = bam::Record::default();
-                        loop {
-                            if r.read_record(&mut rec).await? == 0 {
-                                break;
-                            }
-                            push(format!("R|{}", align::render_record(&header, &rec)?));
-                            push(format!("P|{}", u64::from(r.get_ref().virtual_position())));
-                        }
-                    }
+                    items.push(format!("R|{}", align::render_record(&header, &rec)?));
+                    items.push(format!("P|{}", u64::from(r.get_ref().virtual_position())));
                 }
                 Ok(())
             }
-            _ => Err(io::Error::other("harness: no async reader twin for this kind")),
+            v => aread_bam(bam::r#async::io::Reader::from(bgzf_reader(src, workers)), lazy(v), items).await,
+        },
+        Kind::BamRaw => aread_bam(bam::r#async::io::Reader::from(src), lazy(variant), items).await,
+        Kind::Vcf => aread_vcf(vcf::r#async::io::Reader::new(BufReader::new(src)), lazy(variant), items).await,
+        Kind::VcfGz => aread_vcf(vcf::r#async::io::Reader::new(bgzf_reader(src, workers)), lazy(variant), items).await,
+        Kind::Bcf => aread_bcf(bcf::r#async::io::Reader::from(bgzf_reader(src, workers)), items).await,
+        Kind::BcfRaw => aread_bcf(bcf::r#async::io::Reader::from(src), items).await,
+        Kind::Fasta => {
+            // variant 1: definition / sequence calls separately
+            let mut r = fasta::r#async::io::Reader::new(BufReader::new(src));
+            let mut def = String::new();
+            let mut seq = Vec::new();
+            loop {
+                def.clear();
+                let mut d = fasta::record::Definition::default();
+                let n = r.read_definition(&mut d).await?;
+                def.push_str(&format!("{d:?}"));
+                if n == 0 {
+                    break;
+                }
+                seq.clear();
+                r.read_sequence(&mut seq).await?;
+                items.push(format!("D|{def}|{}", lossy(&seq)));
+            }
+            Ok(())
         }
-    })
-    .await
+        Kind::Fastq => {
+            let mut r = fastq::r#async::io::Reader::new(BufReader::new(src));
+            let mut s = r.records();
+            while let Some(rec) = s.try_next().await? {
+                items.push(format!(
+                    "R|{}|{}|{}|{}",
+                    lossy(rec.name()),
+                    lossy(rec.description()),
+                    lossy(rec.sequence()),
+                    lossy(rec.quality_scores())
+                ));
+            }
+            Ok(())
+        }
+        Kind::Gff => {
+            let mut r = gff::r#async::io::Reader::new(BufReader::new(src));
+            match variant % 2 {
+                0 => {
+                    let mut s = r.lines();
+                    while let Some(line) = s.try_next().await? {
+                        let raw: &bstr::BStr = line.as_ref();
+                        items.push(format!("L|{raw}"));
+                        if let Some(rec) = line.as_record() {
+                            let rec = rec?;
+                            items.push(format!("F|{rec:?}"));
+                        }
+                    }
+                }
+                _ => {
+                    let mut s = r.record_bufs();
+                    while let Some(rec) = s.try_next().await? {
+                        items.push(format!("R|{rec:?}"));
+                    }
+                }
+            }
+            Ok(())
+        }
+        Kind::Gtf | Kind::Bed => unreachable!(),
+        Kind::Bai => {
+            let idx = bam::bai::r#async::io::Reader::new(src).read_index().await?;
+            items.push(format!("X|{idx:?}"));
+            Ok(())
+        }
+        Kind::Csi => {
+            let idx = csi::r#async::io::Reader::new(src).read_index().await?;
+            items.push(format!("X|{idx:?}"));
+            Ok(())
+        }
+        Kind::Tabix => {
+            let idx = tabix::r#async::io::Reader::new(src).read_index().await?;
+            items.push(format!("X|{idx:?}"));
+            Ok(())
+        }
+        Kind::Gzi => {
+            let idx = bgzf::gzi::r#async::io::Reader::new(src).read_index().await?;
+            items.push(format!("X|{idx:?}"));
+            Ok(())
+        }
+        Kind::Fai => {
+            let idx = fasta::fai::r#async::io::Reader::new(BufReader::new(src)).read_index().await?;
+            for rec in idx.as_ref() {
+                items.push(format!("R|{rec:?}"));
+            }
+            Ok(())
+        }
+        Kind::Crai => {
+            let idx = cram::crai::r#async::io::Reader::new(src).read_index().await?;
+            for rec in &idx {
+                items.push(format!("R|{rec:?}"));
+            }
+            Ok(())
+        }
+        Kind::Cram => {
+            let refs = super::kinds::cram_refs();
+            let repo = super::cram::repository(&refs);
+            let mut r = cram::r#async::io::reader::Builder::default()
+                .set_reference_sequence_repository(repo.clone())
+                .build_from_reader(src);
+            let header = r.read_header().await?;
+            items.push(format!("H|{}", align::render_header(&header)?));
+            if lazy(variant) {
+                let mut s = r.records(&header);
+                while let Some(rec) = s.try_next().await? {
+                    items.push(format!("R|{}", align::render_record(&header, &rec)?));
+                }
+            } else {
+                // container-level decoding under the caller's control (fmt::cram::read_cram_with,
+                // Render::ViaRecordBuf): only the container read is async, the rest is the same code
+                let mut container = cram::io::reader::Container::default();
+                while r.read_container(&mut container).await? != 0 {
+                    let compression_header = container.compression_header()?;
+                    for slice in container.slices() {
+                        let slice = slice?;
+                        let (core, external) = slice.decode_blocks()?;
+                        let records = slice.records(repo.clone(), &header, &compression_header, &core, &external)?;
+                        for rec in &records {
+                            let buf = sam::alignment::RecordBuf::try_from_alignment_record(&header, rec)?;
+                            items.push(format!("R|{}", align::render_record(&header, &buf)?));
+                        }
+                    }
+                }
+            }
+            Ok(())
+        }
+    }
 }
 
+async fn aread_sam<R>(mut r: sam::r#async::io::Reader<R>, lazy: bool, items: &mut Vec<String>) -> io::Result<()>
+where
+    R: tokio::io::AsyncBufRead + Unpin,
+{
+    let header = r.read_header().await?;
+    items.push(format!("H|{}", align::render_header(&header)?));
+    if lazy {
+        let mut s = r.records();
+        while let Some(rec) = s.try_next().await? {
+            items.push(format!("R|{}", align::render_record(&header, &rec)?));
+        }
+    } else {
+        let mut s = r.record_bufs(&header);
+        while let Some(rec) = s.try_next().await? {
+            items.push(format!("R|{}", align::render_record(&header, &rec)?));
+        }
+    }
+    Ok(())
+}
+
+async fn aread_bam<R>(mut r: bam::r#async::io::Reader<R>, lazy: bool, items: &mut Vec<String>) -> io::Result<()>
+where
+    R: tokio::io::AsyncRead + Unpin,
+{
+    let header = r.read_header().await?;
+    items.push(format!("H|{}", align::render_header(&header)?));
+    if lazy {
+        let mut s = r.records();
+        while let Some(rec) = s.try_next().await? {
+            items.push(format!("R|{}", align::render_record(&header, &rec)?));
+        }
+    } else {
+        let mut s = r.record_bufs(&header);
+        while let Some(rec) = s.try_next().await? {
+            items.push(format!("R|{}", align::render_record(&header, &rec)?));
+        }
+    }
+    Ok(())
+}
+
+async fn aread_vcf<R>(mut r: vcf::r#async::io::Reader<R>, lazy: bool, items: &mut Vec<String>) -> io::Result<()>
+where
+    R: tokio::io::AsyncBufRead + Unpin,
+{
+    let header = r.read_header().await?;
+    items.push(format!("H|{}", variant::render_header(&header)?));
+    if lazy {
+        let mut s = r.records();
+        while let Some(rec) = s.try_next().await? {
+            items.push(format!("R|{}", variant::render_record(&header, &rec)?));
+        }
+    } else {
+        let mut s = r.record_bufs(&header);
+        while let Some(rec) = s.try_next().await? {
+            items.push(format!("R|{}", variant::render_record(&header, &rec)?));
+        }
+    }
+    Ok(())
+}
+
+async fn aread_bcf<R>(mut r: bcf::r#async::io::Reader<R>, items: &mut Vec<String>) -> io::Result<()>
+where
+    R: tokio::io::AsyncRead + Unpin,
+{
+    let header = r.read_header().await?;
+    items.push(format!("H|{}", variant::render_header(&header)?));
+    let mut s = r.records();
+    while let Some(rec) = s.try_next().await? {
+        items.push(format!("R|{}", variant::render_record(&header, &rec)?));
+    }
+    Ok(())
+}
+
+// ------------------------------------------------------------------------------------- writers
+
 /// Writes the model with the async writer twin following the same careful-user protocol as
-/// `kinds::write_to` (header, records, shutdown).
-pub async fn awrite(kind: Kind, _model: &Model, _sink: SimAsyncWrite, _workers: usize) -> io::Result<()> {
-    let _ = kind;
-    Err(io::Error::other("harness: no async writer twin for this kind"))
+/// `kinds::write_to` (header, records, then the finishing call: see the module documentation).
+pub async fn awrite(kind: Kind, model: &Model, sink: SimAsyncWrite, workers: usize) -> io::Result<()> {
+    if !has_async_writer(kind) {
+        return Err(io::Error::other("harness: no async writer twin for this kind"));
+    }
+    if !async_writer_supports(model) {
+        return Err(io::Error::other("harness: the async writer cannot be configured for this model"));
+    }
+    match (kind, model) {
+        (Kind::Bgzf, Model::Bytes { payload, cuts }) => {
+            let mut w = bgzf_writer(sink, workers);
+            let mut prev = 0;
+            for &c in cuts {
+                w.write_all(&payload[prev..c]).await?;
+                w.flush().await?;
+                prev = c;
+            }
+            w.write_all(&payload[prev..]).await?;
+            w.shutdown().await
+        }
+        (Kind::Sam, Model::Align { parsed, .. }) => {
+            let mut w = sam::r#async::io::Writer::new(sink);
+            w.write_header(&parsed.header).await?;
+            for r in &parsed.records {
+                w.write_alignment_record(&parsed.header, r).await?;
+            }
+            w.get_mut().shutdown().await
+        }
+        (Kind::SamGz, Model::Align { parsed, .. }) => {
+            let mut w = sam::r#async::io::Writer::new(bgzf_writer(sink, workers));
+            w.write_header(&parsed.header).await?;
+            for r in &parsed.records {
+                w.write_alignment_record(&parsed.header, r).await?;
+            }
+            w.get_mut().shutdown().await
+        }
+        (Kind::Bam, Model::Align { parsed, .. }) => {
+            let mut w = bam::r#async::io::Writer::from(bgzf_writer(sink, workers));
+            w.write_header(&parsed.header).await?;
+            for r in &parsed.records {
+                w.write_alignment_record(&parsed.header, r).await?;
+            }
+            w.shutdown().await
+        }
+        (Kind::BamRaw, Model::Align { parsed, .. }) => {
+            let mut w = bam::r#async::io::Writer::from(sink);
+            w.write_header(&parsed.header).await?;
+            for r in &parsed.records {
+                w.write_alignment_record(&parsed.header, r).await?;
+            }
+            w.shutdown().await
+        }
+        (Kind::Vcf, Model::Variant { parsed, .. }) => {
+            let mut w = vcf::r#async::io::Writer::new(sink);
+            w.write_header(&parsed.header).await?;
+            for r in &parsed.records {
+                w.write_variant_record(&parsed.header, r).await?;
+            }
+            w.shutdown().await
+        }
+        (Kind::VcfGz, Model::Variant { parsed, .. }) => {
+            let mut w = vcf::r#async::io::Writer::new(bgzf_writer(sink, workers));
+            w.write_header(&parsed.header).await?;
+            for r in &parsed.records {
+                w.write_variant_record(&parsed.header, r).await?;
+            }
+            w.shutdown().await
+        }
+        (Kind::Bcf, Model::Variant { parsed, .. }) => {
+            let mut w = bcf::r#async::io::Writer::from(bgzf_writer(sink, workers));
+            w.write_header(&parsed.header).await?;
+            for r in &parsed.records {
+                w.write_variant_record(&parsed.header, r).await?;
+            }
+            w.get_mut().shutdown().await
+        }
+        (Kind::BcfRaw, Model::Variant { parsed, .. }) => {
+            let mut w = bcf::r#async::io::Writer::from(sink);
+            w.write_header(&parsed.header).await?;
+            for r in &parsed.records {
+                w.write_variant_record(&parsed.header, r).await?;
+            }
+            w.get_mut().shutdown().await
+        }
+        (Kind::Fasta, Model::Fasta(m, width)) => {
+            let width = NonZero::new((*width).max(1)).unwrap();
+            let mut w = fasta::r#async::io::writer::Builder::default()
+                .set_line_base_count(width)
+                .build_from_writer(sink);
+            for r in &m.records {
+                let def = fasta::record::Definition::new(r.name.as_str(), r.description.clone().map(bstr::BString::from));
+                let rec = fasta::Record::new(def, fasta::record::Sequence::from(r.sequence.clone()));
+                w.write_record(&rec).await?;
+            }
+            w.get_mut().shutdown().await
+        }
+        (Kind::Fastq, Model::Fastq(m)) => {
+            let mut w = fastq::r#async::io::Writer::new(sink);
+            for r in &m.records {
+                let def = fastq::record::Definition::new(r.name.as_str(), r.description.as_str());
+                let rec = fastq::Record::new(def, r.sequence.clone(), r.quality.clone());
+                w.write_record(&rec).await?;
+            }
+            w.get_mut().shutdown().await
+        }
+        (Kind::Bai, Model::Bai(i)) => {
+            let mut w = bam::bai::r#async::io::Writer::new(sink);
+            w.write_index(i).await?;
+            w.shutdown().await
+        }
+        (Kind::Csi, Model::Csi(i)) => {
+            let mut w = csi::r#async::io::Writer::new(sink);
+            w.write_index(i).await?;
+            w.shutdown().await
+        }
+        (Kind::Tabix, Model::Tabix(i)) => {
+            let mut w = tabix::r#async::io::Writer::new(sink);
+            w.write_index(i).await?;
+            w.shutdown().await
+        }
+        (Kind::Gzi, Model::Gzi(i)) => {
+            let mut w = bgzf::gzi::r#async::io::Writer::new(sink);
+            w.write_index(i).await?;
+            w.get_mut().shutdown().await
+        }
+        (Kind::Fai, Model::Fai(i)) => {
+            let mut w = fasta::fai::r#async::io::Writer::new(sink);
+            w.write_index(i).await?;
+            w.shutdown().await
+        }
+        (Kind::Crai, Model::Crai(i)) => {
+            let mut w = cram::crai::r#async::io::Writer::new(sink);
+            w.write_index(i).await?;
+            w.shutdown().await
+        }
+        (Kind::Cram, Model::Cram { model, parsed, opts }) => {
+            // same options as fmt::cram::write_cram (writer_builder), minus the records-per-slice
+            // hook, which the async builder does not have (see async_writer_supports)
+            let mut b = cram::r#async::io::writer::Builder::default()
+                .set_reference_sequence_repository(super::cram::repository(&model.refs))
+                .preserve_read_names(opts.preserve_read_names)
+                .encode_alignment_start_positions_as_deltas(opts.encode_alignment_start_positions_as_deltas);
+            if let Some(map) = super::cram::encoder_map(opts) {
+                b = b.set_block_content_encoder_map(map);
+            }
+            let mut w = b.build_from_writer(sink);
+            w.write_header(&parsed.header).await?;
+            for r in &parsed.records {
+                w.write_alignment_record(&parsed.header, r).await?;
+            }
+            // the type's finishing call (last container + EOF container); it does not shut the
+            // inner writer down, which the careful user does next
+            w.shutdown(&parsed.header).await?;
+            w.get_mut().shutdown().await
+        }
+        _ => Err(io::Error::other("harness: kind/model mismatch")),
+    }
+}
+
+// ------------------------------------------------------------------------------------- queries
+
+const MAX_ITEMS: usize = 200_000;
+
+fn too_many() -> io::Error {
+    io::Error::other("nsim: too many query results")
 }
 
 /// Async counterpart of `fmt::query::query`: loads the index from `index_bytes` with the *async*
 /// index reader and runs the same region / unmapped queries with the async data reader.
-pub async fn aquery(_index_kind: Kind, _index_bytes: Arc<Vec<u8>>, _data_kind: Kind, _src: SimAsyncRead, _workers: usize) -> Obs {
-    Obs {
-        items: Vec::new(),
-        bytes: Vec::new(),
-        end: End::Err {
-            kind: "Other".into(),
-            msg: "harness: no async query twin".into(),
-        },
+pub async fn aquery(index_kind: Kind, index_bytes: Arc<Vec<u8>>, data_kind: Kind, src: SimAsyncRead, workers: usize) -> Obs {
+    let mut buf = ObsBuf::default();
+    let r = aquery_inner(index_kind, &index_bytes, data_kind, src, workers, &mut buf.items).await;
+    finish_obs(buf, r)
+}
+
+async fn aquery_inner(index_kind: Kind, index_bytes: &[u8], data_kind: Kind, src: SimAsyncRead, workers: usize, items: &mut Vec<String>) -> io::Result<()> {
+    use super::query::regions;
+    match (index_kind, data_kind) {
+        (Kind::Bai, Kind::Bam) => {
+            let index = bam::bai::r#async::io::Reader::new(index_bytes).read_index().await?;
+            abam_queries(src, workers, &index, items).await
+        }
+        (Kind::Csi, Kind::Bam) => {
+            let index = csi::r#async::io::Reader::new(index_bytes).read_index().await?;
+            abam_queries(src, workers, &index, items).await
+        }
+        (Kind::Csi, Kind::Bcf) => {
+            let index = csi::r#async::io::Reader::new(index_bytes).read_index().await?;
+            let mut r = bcf::r#async::io::Reader::from(bgzf_reader(src, workers));
+            let header = r.read_header().await?;
+            let names: Vec<String> = header.contigs().keys().map(|k| k.to_string()).collect();
+            for region in regions(&names) {
+                let q = match r.query(&header, &index, &region) {
+                    Ok(q) => q,
+                    Err(e) => {
+                        items.push(format!("Q|{region}|Err({:?})", e.kind()));
+                        continue;
+                    }
+                };
+                let mut s = q.records();
+                loop {
+                    match s.try_next().await {
+                        Ok(Some(rec)) => items.push(format!("Q|{region}|{}", variant::render_record(&header, &rec).unwrap_or_else(|e| format!("render error {e}")))),
+                        Ok(None) => break,
+                        Err(e) => {
+                            items.push(format!("Q|{region}|Err({:?})", e.kind()));
+                            break;
+                        }
+                    }
+                    if items.len() > MAX_ITEMS {
+                        return Err(too_many());
+                    }
+                }
+            }
+            Ok(())
+        }
+        (Kind::Tabix, Kind::VcfGz) => {
+            let index = tabix::r#async::io::Reader::new(index_bytes).read_index().await?;
+            let mut r = vcf::r#async::io::Reader::new(bgzf_reader(src, workers));
+            let header = r.read_header().await?;
+            let names: Vec<String> = header.contigs().keys().map(|k| k.to_string()).collect();
+            for region in regions(&names) {
+                let q = match r.query(&header, &index, &region) {
+                    Ok(q) => q,
+                    Err(e) => {
+                        items.push(format!("Q|{region}|Err({:?})", e.kind()));
+                        continue;
+                    }
+                };
+                let mut s = q.records();
+                loop {
+                    match s.try_next().await {
+                        Ok(Some(rec)) => items.push(format!("Q|{region}|{}", variant::render_record(&header, &rec).unwrap_or_else(|e| format!("render error {e}")))),
+                        Ok(None) => break,
+                        Err(e) => {
+                            items.push(format!("Q|{region}|Err({:?})", e.kind()));
+                            break;
+                        }
+                    }
+                    if items.len() > MAX_ITEMS {
+                        return Err(too_many());
+                    }
+                }
+            }
+            Ok(())
+        }
+        (Kind::Gzi, Kind::Bgzf) => {
+            // sync: bgzf::io::IndexedReader::seek(SeekFrom::Start(off)), which is
+            // Reader::seek_by_uncompressed_position(&index, off); there is no async IndexedReader
+            // in noodles-bgzf, the async Reader has the method itself
+            let index = bgzf::gzi::r#async::io::Reader::new(index_bytes).read_index().await?;
+            let mut r = bgzf_reader(src, workers);
+            for off in [0u64, 1, 100, 65_535, 65_536, 70_000, 200_000, 1 << 20, 1 << 33] {
+                match r.seek_by_uncompressed_position(&index, off).await {
+                    Ok(_) => {
+                        let mut buf = [0u8; 16];
+                        let n = loop {
+                            match r.read(&mut buf).await {
+                                Err(e) if e.kind() == io::ErrorKind::Interrupted => continue,
+                                other => break other,
+                            }
+                        };
+                        match n {
+                            Ok(n) => items.push(format!("Q|{off}|{:02x?}|{}", &buf[..n], u64::from(r.virtual_position()))),
+                            Err(e) => items.push(format!("Q|{off}|read Err({:?})", e.kind())),
+                        }
+                    }
+                    Err(e) => items.push(format!("Q|{off}|seek Err({:?})", e.kind())),
+                }
+            }
+            Ok(())
+        }
+        (Kind::Crai, Kind::Cram) => {
+            let index = cram::crai::r#async::io::Reader::new(index_bytes).read_index().await?;
+            let refs = super::kinds::cram_refs();
+            let mut r = cram::r#async::io::reader::Builder::default()
+                .set_reference_sequence_repository(super::cram::repository(&refs))
+                .build_from_reader(src);
+            let header = r.read_header().await?;
+            let names: Vec<String> = header.reference_sequences().keys().map(|k| k.to_string()).collect();
+            for region in regions(&names) {
+                let q = match r.query(&header, &index, &region) {
+                    Ok(q) => q,
+                    Err(e) => {
+                        items.push(format!("Q|{region}|Err({:?})", e.kind()));
+                        continue;
+                    }
+                };
+                let mut s = q.records();
+                loop {
+                    match s.try_next().await {
+                        Ok(Some(rec)) => items.push(format!("Q|{region}|{}", align::render_record(&header, &rec).unwrap_or_else(|e| format!("render error {e}")))),
+                        Ok(None) => break,
+                        Err(e) => {
+                            items.push(format!("Q|{region}|Err({:?})", e.kind()));
+                            break;
+                        }
+                    }
+                    if items.len() > MAX_ITEMS {
+                        return Err(too_many());
+                    }
+                }
+            }
+            Ok(())
+        }
+        _ => Err(io::Error::other("harness: no async query twin for this index/data pair")),
     }
+}
+
+async fn abam_queries<I>(src: SimAsyncRead, workers: usize, index: &I, items: &mut Vec<String>) -> io::Result<()>
+where
+    I: csi::BinningIndex,
+{
+    use super::query::regions;
+    let mut r = bam::r#async::io::Reader::from(bgzf_reader(src, workers));
+    let header = r.read_header().await?;
+    let names: Vec<String> = header.reference_sequences().keys().map(|k| k.to_string()).collect();
+    for region in regions(&names) {
+        let q = match r.query(&header, index, &region) {
+            Ok(q) => q,
+            Err(e) => {
+                items.push(format!("Q|{region}|Err({:?})", e.kind()));
+                continue;
+            }
+        };
+        let mut s = q.records();
+        loop {
+            match s.try_next().await {
+                Ok(Some(rec)) => items.push(format!("Q|{region}|{}", align::render_record(&header, &rec).unwrap_or_else(|e| format!("render error {e}")))),
+                Ok(None) => break,
+                Err(e) => {
+                    items.push(format!("Q|{region}|Err({:?})", e.kind()));
+                    break;
+                }
+            }
+            if items.len() > MAX_ITEMS {
+                return Err(too_many());
+            }
+        }
+    }
+    match r.query_unmapped(index).await {
+        Ok(mut s) => loop {
+            match s.try_next().await {
+                Ok(Some(rec)) => items.push(format!("Q|unmapped|{}", align::render_record(&header, &rec).unwrap_or_else(|e| format!("render error {e}")))),
+                Ok(None) => break,
+                Err(e) => {
+                    items.push(format!("Q|unmapped|Err({:?})", e.kind()));
+                    break;
+                }
+            }
+            if items.len() > MAX_ITEMS {
+                return Err(too_many());
+            }
+        },
+        Err(e) => items.push(format!("Q|unmapped|Err({:?})", e.kind())),
+    }
+    Ok(())
 }
